@@ -15,6 +15,7 @@
 -/
 import OrasModel.Model.Copy
 import OrasModel.Driver.Util
+import OrasModel.Model.CopyRoot
 namespace Oras.Driver.Cp
 open Oras Oras.Driver
 
@@ -149,6 +150,16 @@ def step (st : St) (toks : List String) : Option (St × String × String) :=
   | ["tagged", r] => do
       let root ← kv [r] "root"
       some (st, root, root)
+  | "rootflow" :: rest => do
+      -- what Copy does to the root: hooks, push, and the one tagging call with its reference
+      let rp := (← kv rest "refpusher") == "1"
+      let pr := (← kv rest "present") == "1"
+      let ref ← kv rest "ref"
+      let showEv : RootEv → String
+        | .exists_ => "exists" | .userSkipped => "skipped" | .userPreCopy => "preCopy" | .push => "push"
+        | .pushReference => s!"pushRef:{ref}" | .tag => s!"tag:{ref}" | .userPostCopy => "postCopy"
+      let m := ",".intercalate ((rootFlow ⟨rp, pr⟩).map showEv)
+      some (st, m, m)
   | "gauge" :: _ => some (st, "ok", "ok")     -- runtime monitor (C04): in-flight ≤ Concurrency
   | ["once"] => some (st, "ok", "ok")         -- runtime monitor (C04): one fetch / one push per node
   | ["closed"] => some (st, if closedNow st then "1" else "0", "1")
